@@ -19,6 +19,9 @@ import ODataVerif.Model.Printer
 import ODataVerif.Model.PyVal
 import ODataVerif.Model.Sql
 import ODataVerif.Spec.SqlLex
+import ODataVerif.Spec.SqlParse
+import ODataVerif.Spec.SqlMirror
+import ODataVerif.Model.SqlPieces
 open OQ OQ.Wire
 
 def encTok : Tok → String
@@ -111,6 +114,37 @@ def encSqlToks : Option (List Spec.SqlTok) → String
   | some ts => "ok " ++ " ".intercalate (ts.map encSqlTok)
   | none => "reject"
 
+mutual
+partial def encSql : Spec.SqlTree → String
+  | .col none n => s!"(col {encStr n})"
+  | .col (some q) n => s!"(col {encStr q} {encStr n})"
+  | .str v => s!"(str {encStr v})"
+  | .num v => s!"(num {String.ofList v})"
+  | .kw v => s!"(kw {String.ofList v})"
+  | .typed k v => s!"(typed {String.ofList k} {encStr v})"
+  | .interval n u => s!"(interval {encStr n} {String.ofList u})"
+  | .un op e => s!"(un {String.ofList op} {encSql e})"
+  | .bin op l r => s!"(bin {String.ofList op} {encSql l} {encSql r})"
+  | .like l p none => s!"(like {encSql l} {encSql p})"
+  | .like l p (some c) => s!"(like {encSql l} {encSql p} escape {encStr c})"
+  | .inl e xs => s!"(in {encSql e} [{encSqls xs}])"
+  | .row xs => s!"(row [{encSqls xs}])"
+  | .call n xs => s!"(call {String.ofList n} [{encSqls xs}])"
+  | .cast e t => s!"(cast {encSql e} {String.ofList t})"
+  | .extract p e => s!"(extract {String.ofList p} {encSql e})"
+  | .position a b => s!"(position {encSql a} {encSql b})"
+  | .substring a b .none => s!"(substring {encSql a} {encSql b})"
+  | .substring a b (.some c) => s!"(substring {encSql a} {encSql b} {encSql c})"
+partial def encSqls : Spec.SqlTrees → String
+  | .nil => ""
+  | .cons h .nil => encSql h
+  | .cons h t => encSql h ++ " " ++ encSqls t
+end
+
+def encOptSql : Option Spec.SqlTree → String
+  | some t => "ok " ++ encSql t
+  | none => "none"
+
 /-- alias argument: "-" = no alias, otherwise hex of the alias -/
 def decAlias (a : String) : Option (Option Str) :=
   if a == "-" then some none else (decStr a).map some
@@ -164,6 +198,34 @@ def handle (args : List String) : String :=
       (match dialectOf d, decAlias a with
        | some dl, some al =>
            withExpr w (fun e => encOutcome (fun t => hexOfString (String.ofList t)) (sqlText pyCharEnv.isDigit dl al e))
+       | _, _ => "bad-arg")
+  | ["sqlread", h] =>
+      (match decStr h with
+       | some s => encOptSql (Spec.sqlRead s)
+       | none => "bad-arg")
+  | ["mirror", d, a, w] =>
+      (match dialectOf d, decAlias a with
+       | some dl, some al => withExpr w (fun e => encOptSql (Spec.mirror pyCharEnv.isDigit dl al e))
+       | _, _ => "bad-arg")
+  | ["sqlsafe", d, w] =>
+      (match dialectOf d with
+       | some dl => withExpr w (fun e => if Spec.sqlSafe dl e then "True" else "False")
+       | none => "bad-arg")
+  | ["sqlthm", d, a, w] =>
+      -- the statements of the lexing / parsing theorems, evaluated on one instance (a test, not a proof)
+      (match dialectOf d, decAlias a with
+       | some dl, some al =>
+           withExpr w (fun e =>
+             let lo := litOk pyCharEnv.isDigit dl e && aliasOk al
+             let sf := Spec.sqlSafe dl e
+             match sqlVisit pyCharEnv.isDigit dl al e with
+             | .ok ps =>
+                 let lexOk := Spec.sqlLex (renderPieces ps) == some (pieceToks ps)
+                 let mir := Spec.mirror pyCharEnv.isDigit dl al e
+                 let parseOk := mir.isNone || Spec.sqlParse (pieceToks ps) == mir
+                 let allOk := ps.all Piece.ok
+                 s!"ok litok={lo} safe={sf} pieces={allOk} lex={lexOk} mirror={mir.isSome} parse={parseOk}"
+             | _ => s!"exc litok={lo} safe={sf}")
        | _, _ => "bad-arg")
   | ["sqllex", h] =>
       (match decStr h with
